@@ -1203,6 +1203,8 @@ class Evaluator:
             st = _State()
             # names of earlier members are visible inside the class body
             for n in ci.enum_members:
+                if n == em.name:
+                    break  # only members defined earlier in the class body are visible
                 st.env[n] = EnumMember(ci.name, n)
             v = self.expr(ci.enum_members[em.name], st, ci.module, None, depth)
         finally:
